@@ -4248,6 +4248,11 @@ bool llbuild::buildsystem::pathIsPrefixedByPath(std::string path,
   // Check if `prefixPath` has been exhausted or just a separator remains.
   bool isPrefix = res.first == prefixPath.end() ||
                   (pathSeparators.find(*(res.first++)) != std::string::npos);
+  // A prefix which still ends in a separator here is the root directory
+  // itself ("/"), and everything beneath the root directory has it as a prefix.
+  if (res.first == prefixPath.end() && !prefixPath.empty() &&
+      pathSeparators.find(prefixPath.back()) != std::string::npos)
+    return true;
   // Check if `path` has been exhausted or just a separator remains.
   return isPrefix &&
          (res.second == path.end() ||
